@@ -24,7 +24,7 @@ theorem wf_connect (eps : List Endpoint) : WF (connect eps) := by
 theorem wf_step (s : St) (e : Ev) (hi : Inv1 s) (hw : WF s) : WF (step .repaired s e) := by
   obtain ⟨w1, w2, w3⟩ := hw
   cases e with
-  | attemptFails =>
+  | attemptFails why =>
     simp only [step]
     split
     · rename_i hp
